@@ -13,7 +13,7 @@ from ..runner import Part
 PROPERTY = "C05"
 LEVEL = "fault_enumeration"
 RULE = ("histories: every sequence (length <= 3 quick / 4 thorough) of request outcomes {success, success after k "
-        "drops, slow in-time success, retries exhausted, rejected after j drops, send error, receive error, late corrupted answer then "
+        "drops, slow in-time success, retries exhausted, a lone fragment on every attempt, rejected after j drops, send error, receive error, late corrupted answer then "
         "slow success / silence} with 0.4 T gaps between some requests, followed by a silent request, "
         "x {udp-rtu, tcp} x keep-alive x (T, R) grid, with and without a new event loop between requests; plus the entry "
         "points connect/discover/search_inverters over a (timeout, retries) grid for each family; distinct = distinct "
@@ -23,7 +23,7 @@ ASSUMPTIONS = [
     "virtual clock; AF_UNIX socketpairs as in C04",
     "a 'probe' of an entry point is a maximal run of identical frames with no delivery in between",
 ]
-MUST = ["slow_answer_in_time", "full_timeout_after_corrupt_answer", "final_silent_exact", "prefix_success_after_drops", "prefix_exhausted", "prefix_rejected", "prefix_send_error",
+MUST = ["lone_fragment_every_attempt", "slow_answer_in_time", "full_timeout_after_corrupt_answer", "final_silent_exact", "prefix_success_after_drops", "prefix_exhausted", "prefix_rejected", "prefix_send_error",
         "prefix_recv_error", "loop_change", "connect_probe", "discover_probe", "search_probe", "detected_family_probe",
         "connected_then_silent"]
 EXHAUSTIVE = {"quick": True, "thorough": True}
@@ -32,7 +32,7 @@ EPS = 1e-6
 
 
 def classes(R):
-    cs = ["ok0", "okslow", "exh", "senderr", "recverr", "badlate_ok", "badlate_exh"]
+    cs = ["ok0", "okslow", "exh", "fragexh", "senderr", "recverr", "badlate_ok", "badlate_exh"]
     cs += [f"ok{k}" for k in range(1, R + 1)]
     cs += [f"rej{j}" for j in range(0, R + 1)]
     return cs
@@ -47,6 +47,8 @@ def script_for(cls, R):
         return ["drop"] * int(cls[2:]) + ["now"]
     if cls == "exh":
         return ["drop"] * (R + 1)
+    if cls == "fragexh":           # every attempt is answered at once by a lone first fragment: each attempt times out after T
+        return ["frag1"] * (R + 1)
     if cls.startswith("rej"):
         return ["drop"] * int(cls[3:]) + [["exc", 2]]
     if cls == "badlate_ok":        # corrupted answer half a timeout late, then the retransmission answered 0.8 T late
@@ -101,7 +103,7 @@ def check_history(sc, run, part: Part):
         cls = sc["prefix"][i] if i < len(sc["prefix"]) else "final"
         txt = [e[0] for e in engine.events_of_call(run, rec["id"]) if e[1] == "tx"]
         ctx = f"request #{i} ({cls}) after {sc['prefix'][:i]} T={T} R={R} ka={sc['keep_alive']} newloop={sc['newloop']}"
-        if cls == "final" or cls == "exh":
+        if cls in ("final", "exh", "fragexh"):
             if not spaced(txt, rec["t0"], T, R + 1):
                 out.append((f"C05/{tr}/silent-request-budget",
                             f"{ctx}: transmissions at {[round(t - rec['t0'], 6) for t in txt]} (relative), expected {R + 1} spaced {T}"))
@@ -109,7 +111,7 @@ def check_history(sc, run, part: Part):
                 out.append((f"C05/{tr}/silent-request-end",
                             f"{ctx}: ended {rec['outcome']} at +{round(rec['t1'] - rec['t0'], 6)}, expected failure at +{(R + 1) * T}"))
             else:
-                part.count("final_silent_exact" if cls == "final" else "prefix_exhausted")
+                part.count({"final": "final_silent_exact", "exh": "prefix_exhausted"}.get(cls, "lone_fragment_every_attempt"))
         elif cls == "okslow":
             if rec["outcome"] != "ok" or len(txt) != 1 or abs(rec["t1"] - (rec["t0"] + 0.6 * T)) > EPS:
                 out.append((f"C05/{tr}/timeout-cut-short",
